@@ -120,3 +120,43 @@ Section SkelAR08.
   Proof. intros; eapply ranked_returns; eassumption. Qed.
 End SkelAR08.
 Print Assumptions C08_code_ranked_donors.
+
+(* ---- the control skeleton INTERPRETED (Proofs/InterpRepop.v): with a concrete value type and every callee of the generated
+   skeleton answered by the hand model's own helper (rank_donors, find_donor, move; the Python set iterates over `order`, the
+   j-th refill uses the j-th draw), the skeleton of repopulate_empty_clusters AS TRANSLATED returns exactly what
+   Model/Repop.repopulate returns and raises exactly when it is None - for every K, m, spread, order, draws and labelling.
+   Together with C08_code_find_donor / C08_code_move (the helpers as translated = the model's helpers) the model's composition
+   of the helpers - the refill loop - is the code's, not only the helpers themselves. ---- *)
+From Ticc Require Import Gen.G_cm_repopulate Proofs.InterpRepop.
+Theorem C08_code_skeleton_computes_model : forall (K m : nat) (spread : nat -> nat) (order : list nat) (draws : list (list nat)) (labels : list nat),
+  match repopulate K m spread order draws labels with
+  | Some out => exists log',
+      g_repopulate_empty_clusters val as_int getattr as_list (oracle_model K m spread order draws) (VState labels) []
+      = (Ret (VState out), log')
+  | None => exists e log',
+      g_repopulate_empty_clusters val as_int getattr as_list (oracle_model K m spread order draws) (VState labels) []
+      = (Raise e, log')
+  end.
+Proof. exact repopulate_skeleton_is_model. Qed.
+Print Assumptions C08_code_skeleton_computes_model.
+
+(* hence the guarantees proved of the model (C08_ok) hold of whatever the interpreted skeleton returns *)
+From Ticc Require Import Proofs.RepopP.
+Theorem C08_code_skeleton_conserves : forall (K m : nat) (spread : nat -> nat) (order : list nat) (draws : list (list nat)) (labels : list nat) r log',
+  Hyp K m spread order draws labels ->
+  g_repopulate_empty_clusters val as_int getattr as_list (oracle_model K m spread order draws) (VState labels) [] = (Ret r, log') ->
+  exists out, r = VState out /\
+    length out = length labels /\ Forall (fun c => (c < K)%nat) out /\
+    (forall k, In k order -> size out k = (size labels k + m)%nat) /\
+    (forall k, (k < K)%nat -> ~ In k order ->
+        exists j, size labels k = (size out k + j * m)%nat /\ ((0 < j)%nat -> (2 * m <= size labels k)%nat /\ (m <= size out k)%nat)).
+Proof.
+  intros K m spread order draws labels r log' HH Hrun.
+  pose proof (repopulate_skeleton_is_model K m spread order draws labels) as Hm.
+  destruct (repopulate K m spread order draws labels) as [out|] eqn:Hrep.
+  - destruct Hm as [log2 Hm]. rewrite Hm in Hrun. injection Hrun as Hr _. exists out. split; [symmetry; exact Hr|].
+    destruct (repop_ok K m spread order draws labels out HH Hrep) as (H1 & H2 & _ & H4 & H5).
+    repeat split; assumption.
+  - destruct Hm as [e [log2 Hm]]. rewrite Hm in Hrun. discriminate Hrun.
+Qed.
+Print Assumptions C08_code_skeleton_conserves.
